@@ -385,3 +385,34 @@ def jsonable(x):
     if isinstance(x, (int, str, bool)) or x is None:
         return x
     return repr(x)
+
+
+# ---------------------------------------------------------------------------
+# in-place updates of a LIVE model (non-initial states: caches must not go stale)
+
+UPDATE_STYLES = ["copy_", "rebind", "load_state_dict", "add_"]
+
+
+def update_params(st, params, style):
+    """bring an existing state to `params` the way training / loading / user code would"""
+    for net, vals in zip(st.networks, params):
+        rbm = getattr(st, net)
+        i = 0
+        new = {}
+        for name, p in rbm.named_parameters():
+            n = p.numel()
+            new[name] = torch.tensor(np.array(vals[i:i + n], dtype=float).reshape(tuple(p.shape)), dtype=torch.double)
+            i += n
+        if style == "load_state_dict":
+            rbm.load_state_dict(new)
+            continue
+        for name, p in rbm.named_parameters():
+            if style == "copy_":
+                p.data.copy_(new[name])
+            elif style == "rebind":
+                p.data = new[name]
+            elif style == "add_":
+                p.data.add_(new[name] - p.data)
+                p.data.copy_(new[name])  # exact target value, still in place
+            else:
+                raise EngineError(style)
